@@ -195,7 +195,11 @@ def execute(sub, fx, steps, meta0):
             outcome = "error:%s" % type(e).__name__
             detail = str(e)[:200]
         if outcome == "ok":
-            o = fx.observe(len(P))
+            try:
+                o = fx.observe(len(P))
+            except Exception as e:      # the stacked repository cannot even be listed after the step
+                o = {"outcome": "error:unreadable:%s" % type(e).__name__, "detail": str(e)[:200]}
+                outcome = o["outcome"]
         else:
             o = {"outcome": outcome, "detail": detail}
         if a == "commit" and outcome == "ok":
@@ -306,12 +310,19 @@ def judge(ctx, rows, selftest=True):
         have = set(r["impl"].get("checkp", ()))
         new_problems[id(r)] = sorted(have - before.get(r["meta"]["behaviour"], set()))
         before[r["meta"]["behaviour"]] = have
-    probes = selftest_rows(slim) if selftest else []
+    probes, skipped = [], None
+    if selftest:
+        try:
+            probes = selftest_rows(slim)
+        except core.MachineryError as e:
+            skipped = str(e)
     expected = {id(p): law for p, law in probes}
-    caught = set()
+    caught = {id(p) for p, law in probes if law is None}      # the control row is caught by NOT being reported
     for srow, failed, drift in table.judge(ctx, "StackingTrace", slim + [p for p, _ in probes], chunk=4000, workers=4, timeout=3000):
         if id(srow) in expected:
-            if expected[id(srow)] in failed:
+            if expected[id(srow)] is None:
+                caught.discard(id(srow))
+            elif expected[id(srow)] in failed:
                 caught.add(id(srow))
             continue
         row = by_id[id(srow)]
@@ -336,27 +347,37 @@ def judge(ctx, rows, selftest=True):
                       {"meta": m, "c": row["c"], "spec": row["spec"],
                        "got": {k: o.get(k) for k in ("lrevs", "linvs", "ltexts", "lsigs", "tip")}})
     if len(caught) != len(probes):
-        ctx.machinery("binding self-test: TLC accepted %d of %d corrupted observations" % (len(probes) - len(caught), len(probes)))
-    ctx.cov["selftest_corrupted_rows_rejected"] = len(caught)
+        ctx.machinery("binding self-test: TLC misjudged %d of %d probe observations" % (len(probes) - len(caught), len(probes)))
+    if skipped and not ctx.violations:
+        ctx.machinery(skipped)
+    ctx.cov["selftest_probe_rows_judged_as_expected"] = len(caught)
     ctx.cov["traces_validated_against_impl"] -= len(probes)
 
 
 def selftest_rows(slim):
-    """Corrupted copies of a good observation with a parent inventory copied from the fallback: (row, rejecting law)."""
+    """Binding self-test rows: one recorded step whose SPECIFIED local content has a parent inventory from the fallback, with
+    the key sets taken from the specification (must be accepted: law None), and corrupted copies (rejecting law)."""
     import copy
-    good = next((r for r in slim if r["impl"]["outcome"] == "ok" and r["impl"]["lrevs"]
-                 and set(r["impl"]["linvs"]) - set(r["impl"]["lrevs"])
-                 and any(k[1] == r["impl"]["lrevs"][-1] for k in r["impl"]["ltexts"])), None)
-    if good is None:
-        raise core.MachineryError("binding self-test: no step left a parent inventory from the fallback in the stacked repository")
-    out = []
+    base = next((r for r in slim if r["impl"]["outcome"] == "ok" and r["spec"]["revs"]
+                 and set(r["spec"]["invs"]) - set(r["spec"]["revs"])
+                 and any(k[1] == r["spec"]["revs"][-1] for k in r["spec"]["texts"])), None)
+    if base is None:
+        raise core.MachineryError("binding self-test: no step whose specified content has a parent inventory from the fallback")
+    sp = base["spec"]
+    good = copy.deepcopy(base)
+    vis = set(good["impl"]["vis"])
+    good["impl"].update(lrevs=list(sp["revs"]), linvs=list(sp["invs"]), ltexts=[list(k) for k in sp["texts"]], lsigs=list(sp["sigs"]),
+                        tip=sp["tip"], check="ok", tipread="ok",
+                        read=["ok" if k + 1 in vis else "" for k in range(len(good["impl"]["read"]))],
+                        diff=["ok" if k + 1 in vis else "" for k in range(len(good["impl"]["diff"]))])
+    out = [(good, None)]
 
     def probe(law, fn):
         r = copy.deepcopy(good)
         fn(r["impl"])
         out.append((r, law))
-    extra = sorted(set(good["impl"]["linvs"]) - set(good["impl"]["lrevs"]))[0]
-    rev = good["impl"]["lrevs"][-1]
+    extra = sorted(set(sp["invs"]) - set(sp["revs"]))[0]
+    rev = sp["revs"][-1]
     probe("parent-inventories", lambda o: o["linvs"].remove(extra))
     probe("texts", lambda o: (o.__setitem__("ltexts", [k for k in o["ltexts"] if k[1] != rev]),
                               o.__setitem__("lroot", [k for k in o["lroot"] if k[1] != rev])))
